@@ -45,7 +45,7 @@ func configs(quick bool) []Cfg {
 			"lock:alice:vb:0", "lock:alice:vb:3", "lock:alice:vb:P",
 			"deact:va", "deact:vb", "params:1", "params:0",
 		},
-		Depth: d(5, 7),
+		Depth: d(5, 6),
 	})
 
 	// (3) two accounts sharing vaults and a validator: locks of one account never bind the other
